@@ -1,7 +1,7 @@
 #!/bin/sh
 # seedtest_wt.sh <patch> <prop>... : like seedtest.sh but in a scratch worktree (VERIF_REPO), /repo untouched
-P="$1"; shift
-WT=/tmp/wt_seedtest
+P="$(readlink -f "$1")"; shift
+WT=${WT:-/tmp/wt_seedtest}
 if [ ! -d $WT ]; then git -C /repo worktree add -q --detach $WT HEAD || exit 3; fi
 git -C $WT checkout -q --detach $(git -C /repo rev-parse HEAD) 2>/dev/null
 git -C $WT checkout -- . 
